@@ -108,6 +108,17 @@ Confirm ==
     /\ last' = [e |-> "confirm", pre |-> phase, r |-> 0, ok |-> TRUE]
     /\ UNCHANGED <<cccd, phase, op, acc, rsp>>
 
+\* Finite shadow of the liveness property on a recorded execution: the harness lets the application
+\* confirm (apps times), confirms every indication and polls l2cap_output a few rounds; ops is the list
+\* of request opcodes of the response indications seen.  Exactly the awaited response must appear.
+Drain(ops, apps, others) ==
+    /\ ops = IF Awaiting THEN <<op>> ELSE <<>>
+    /\ apps = IF phase = "app" THEN 1 ELSE 0
+    /\ others = 0
+    /\ phase' = "idle" /\ unconf' = FALSE /\ rsp' = rsp + Len(ops)
+    /\ last' = [e |-> "drain", pre |-> phase, r |-> 0, ok |-> TRUE]
+    /\ UNCHANGED <<cccd, op, acc>>
+
 Next == \/ \E v \in {0, 2} : WriteCccd(v, 0)
         \/ \E len \in 0..MaxLen, o \in Opcodes, r \in {0} \cup Errors, set \in {0, 1} : Write(len, o, r, set)
         \/ AppConfirm
